@@ -152,6 +152,13 @@ Definition step (biased : bool) (s : astate) (e : event) : astate :=
 
 Definition run (biased : bool) (evs : list event) : astate := fold_left (step biased) evs init.
 
+(** leptos_server's [ArcServerAction::new] / [ServerAction::new]: [ArcAction::new_with_value(err, …)]
+    where [err] is the error decoded from a [ServerActionError] context whose path is the server
+    function's (a failed form post without JS/WASM, restored from the URL), else [None] *)
+Definition init_with (v0 : option Z) : astate := mkA 0 None v0 0 0 [] [].
+Definition run_from (v0 : option Z) (biased : bool) (evs : list event) : astate :=
+  fold_left (step biased) evs (init_with v0).
+
 (** [pending()] = ArcMemo(in_flight > 0) *)
 Definition pending (s : astate) : bool := negb (in_flight s =? 0).
 
